@@ -380,6 +380,25 @@ HIST_ADVERSARIAL = [
 ]
 
 
+AUTO_MIDS = ["1", "2", "3", "9", "10", "12", "99", "007", "0", "", "x", "3a", "a7", "run12", "2.5", "1.bak", "-4",
+             "100", "41"]
+AUTO_WRITERS = [("to_npy", "npy"), ("to_fits", "fits"), ("to_txt", "txt"), ("to_csv", "csv"), ("to_png", "png"),
+                ("to_jpg", "jpg")]
+
+
+def gen_auto(r, n):
+    cases = [dict(kind="auto", writer="to_npy", ext="npy", mids=[]),
+             dict(kind="auto", writer="to_npy", ext="npy", mids=["1", "2", "3"]),
+             dict(kind="auto", writer="to_fits", ext="fits", mids=["9", "10"]),          # 10 > 9: not a string order
+             dict(kind="auto", writer="to_txt", ext="txt", mids=["007", "x"]),
+             dict(kind="auto", writer="to_npy", ext="npy", mids=["", "a7", "2.5"])]
+    for _ in range(n):
+        w, e = r.choice(AUTO_WRITERS)
+        cases.append(dict(kind="auto", writer=w, ext=e, mids=r.sample(AUTO_MIDS, r.randrange(0, 6))))
+    return cases
+
+
+
 ADVERSARIAL = [
     # repeated starts within one second, directory of that second already there
     dict(kind="dirs_seq", ts=TS, pre=[f"run_{TS}"], prefixes=["", "", ""]),
@@ -417,6 +436,7 @@ def gen_all(ctx: Ctx, salt: str, scale: int = 1):
     cases += gen_dirs(ctx, r, scale * (25 if q else 120), scale * (30 if q else 200), scale * (8 if q else 28),
                       max_n if scale == 1 else 8)
     cases += gen_writers()
+    cases += gen_auto(ctx.rng(salt + "/auto"), scale * (20 if q else 120))
     for _ in range(scale * (40 if q else 200)):
         cases.append(gen_flow(r, "exposure"))
     for _ in range(scale * (32 if q else 160)):
@@ -469,6 +489,9 @@ def emit_case(c, o):
                 f"w_changed := {core.cbool(o['changed'])} |}}")
     if k == "hist":
         return emit_hist(c, o)
+    if k == "auto":
+        return (f"{{| au_mids := {core.clist(cs(x) for x in c['mids'])}; au_new := {cs(o['new'])}; "
+                f"au_intact := {core.cbool(o['intact'])}; au_created := {core.cnat(o['created'])} |}}")
     if k == "flow":
         pre = [(n, -10 - i) for i, n in enumerate(c["pre"])]
         rep = core.clist(f"({core.cnat(r)}, {BCOQ[b]}, {FCOQ[f]}, {cs(n)})" for r, b, f, n in o["rep"])
@@ -546,6 +569,7 @@ EVALS = {
         "violations (fun c => match f_err c with Some _ => true | None => spec_named (f_mode c) (f_rep c) end) cases",
         "violations (flow_spec_ok src_tables) cases",
     ]),
+    "auto": ("auto_case", ["mismatches (auto_model_ok src_auto) cases", "violations auto_spec_ok cases"]),
     "hist": ("hist_case", [
         "mismatches (hist_model_ok src_tables src_mkdir_exclusive) cases",
         "violations (fun c => hist_dirs_ok (hc_world c) (hc_sims c) (hc_recs c)) cases",
@@ -556,7 +580,7 @@ EVALS = {
         "violations hist_case_spec_ok cases",
     ]),
 }
-HAS_MODEL = {"dirs_seq", "dirs_sched", "writer", "flow", "hist"}
+HAS_MODEL = {"dirs_seq", "dirs_sched", "writer", "flow", "hist", "auto"}
 FLOW_CLAUSES = ["clobbered", "misattributed", "incomplete", "misnamed"]
 HIST_CLAUSES = ["wrong_directory", "clobbered", "misattributed", "incomplete", "misnamed"]
 
@@ -869,6 +893,15 @@ def evaluate(ctx: Ctx, cases, tag: str):
                 if i not in found:
                     viols.append(Violation("hist_spec", chunk[i][0], chunk[i][1], "hist_spec_ok",
                                            "history specification", dict(clause="hist_spec")))
+        elif kind == "auto":
+            for i in lists[0]:
+                c, o = chunk[i]
+                viols.append(Violation("auto_number", c, o, "a new name that is not in use; nothing else touched",
+                                       f"{c['writer']}(run_number=None) in a directory holding {c['mids']}: returned "
+                                       f"number part {o['new']!r}, existing files intact: {o['intact']}, new files: "
+                                       f"{o['created']}",
+                                       dict(clause="auto_number", writer=c["writer"],
+                                            reused=o["new"] in c["mids"])))
         elif kind == "writer":
             for i in lists[0]:
                 c, o = chunk[i]
@@ -902,6 +935,9 @@ def account(ctx: Ctx, by_kind):
                 nontrivial = True
             elif kind == "writer":
                 nontrivial = c["exists"]
+            elif kind == "auto":
+                ctx.dist("auto_matches", len(c["mids"]))
+                nontrivial = len(c["mids"]) >= 2
             elif kind == "hist":
                 nsim = sum(1 for x in c["ops"] if x[0] in ("run", "start"))
                 ctx.dist("hist_simulations", nsim)
